@@ -267,6 +267,47 @@ theorem C19_wait_nil (ticks : List (List Sess)) (h : waitPick ticks = none) :
         simpa using this
       · exact ih h reg' hr s hs
 
+/-- a request that had to wait is routed like any other: under the XID policy, when an open session to the
+    coordinator its xid names is there at the tick that ends the wait, it gets one of those - and in every case an
+    open session that was registered at that tick -/
+theorem C19_wait_follows_xid (xid : String) (ticks : List (List Sess)) (s : Sess)
+    (h : s ∈ waitAllowed .xid xid ticks) :
+    s.closed = false ∧ ∃ reg ∈ ticks, s ∈ reg ∧
+      ∀ a, xidAddr xid = some a → (∃ t ∈ reg, t.closed = false ∧ t.addr = a) → s.addr = a := by
+  induction ticks with
+  | nil => simp [waitAllowed] at h
+  | cons reg rest ih =>
+    simp only [waitAllowed] at h
+    split at h
+    · obtain ⟨hc, reg', hr, hs, hx⟩ := ih h
+      exact ⟨hc, reg', by simp [hr], hs, hx⟩
+    · have hopen := mem_openS.mp (allowed_sub_open .xid { sessions := reg } xid s h)
+      refine ⟨hopen.2, reg, by simp, hopen.1, ?_⟩
+      intro a hx hex
+      exact ((C19_xid_affinity { sessions := reg } xid a hx hex).2 s h).1
+
+/-- and whatever the policy: the session is open and was registered at some tick; nil only when no policy could
+    choose at any tick, i.e. no open session ever appeared -/
+theorem C19_wait_policy_open (p : Policy) (xid : String) (ticks : List (List Sess)) (s : Sess)
+    (h : s ∈ waitAllowed p xid ticks) : s.closed = false ∧ ∃ reg ∈ ticks, s ∈ reg := by
+  induction ticks with
+  | nil => simp [waitAllowed] at h
+  | cons reg rest ih =>
+    simp only [waitAllowed] at h
+    split at h
+    · obtain ⟨hc, reg', hr, hs⟩ := ih h
+      exact ⟨hc, reg', by simp [hr], hs⟩
+    · have hopen := mem_openS.mp (allowed_sub_open p { sessions := reg } xid s h)
+      exact ⟨hopen.2, reg, by simp, hopen.1⟩
+
+/-- before the repair the waiting request took the first open session of the registry: with sessions to two
+    coordinators open at that tick, a request for the transaction of the second could go to the first -/
+theorem C19_before_fix_wait_ignores_xid :
+    waitAllowedBeforeFix [[], [{ id := 1, addr := "10.0.0.1:8091", closed := false }, { id := 2, addr := "10.0.0.2:8091", closed := false }]]
+      = [{ id := 1, addr := "10.0.0.1:8091", closed := false }] ∧
+    waitAllowed .xid "10.0.0.2:8091:77" [[], [{ id := 1, addr := "10.0.0.1:8091", closed := false }, { id := 2, addr := "10.0.0.2:8091", closed := false }]]
+      = [{ id := 2, addr := "10.0.0.2:8091", closed := false }] := by decide
+
 /-- the loop before the repair handed out a closed session (finding C19-waiting-request-gets-closed-session) -/
 theorem C19_before_fix_wait_closed :
     waitPickBeforeFix [[], [{ id := 7, addr := "a:1", closed := true }], [{ id := 8, addr := "a:1", closed := false }]]
